@@ -13,6 +13,9 @@ def item(deps, g=0, gc=0, mode=0, w=1, c=0):
 def node(kind, code=(), init=0, post=0):
     return {"kind": kind, "init": init, "code": list(code), "post": post, "panic_if": -1}
 
+PAR = "--par" in sys.argv     # 2-successor items read their successors concurrently (join_all)
+
+
 def programs(seed, max4):
     out = []
     rnd = random.Random(seed)
@@ -34,10 +37,11 @@ def programs(seed, max4):
                     for j, succ in enumerate(combo):
                         inp = 1 + (j % n_in)
                         code = [item([inp])]
+                        md = 1 if PAR and len(succ) == 2 else 0
                         if gmode == 0 or j % 2 == 1:
-                            code.append(item(list(succ), c=1))
+                            code.append(item(list(succ), c=1, mode=md))
                         else:
-                            code.append(item(list(succ), g=1, gc=1, c=1))
+                            code.append(item(list(succ), g=1, gc=1, c=1, mode=md))
                         nodes.append(node("Nm", code, init=0))
                     # consumers
                     nodes.append(node("Nm", [item([1]), item([ring[0]], c=1)]))
@@ -46,12 +50,15 @@ def programs(seed, max4):
     return out
 
 if __name__ == "__main__":
-    outp = sys.argv[1]
-    seed = int(sys.argv[2]) if len(sys.argv) > 2 else 1
-    mx = int(sys.argv[3]) if len(sys.argv) > 3 else 40
+    args = [a for a in sys.argv if not a.startswith("--")]
+    outp = args[1]
+    seed = int(args[2]) if len(args) > 2 else 1
+    mx = int(args[3]) if len(args) > 3 else 40
     ps = programs(seed, mx)
+    if PAR:
+        ps = [p for p in ps if any(it["mode"] == 1 for nd in p["nodes"] for it in nd["code"])]
     random.Random(seed).shuffle(ps)
-    cap = int(sys.argv[4]) if len(sys.argv) > 4 else len(ps)
+    cap = int(args[4]) if len(args) > 4 else len(ps)
     ps = ps[:cap]
     with open(outp, "w") as f:
         for p in ps:
